@@ -247,6 +247,10 @@ def run(repo, rep, tier):
         r = _mainloop.run(repo, [ranked_vals[0]] * 3, js, targets=['host0', '', 'host2'])
         if len(r['submitted']) != 3:
             badb.append('3 listed targets, one with an empty host name: %d tasks submitted' % len(r['submitted']))
+        r = _mainloop.run(repo, [ranked_vals[0]] * 3, js, targets=['host0', 'host0', 'host1'])
+        blocks = sorted(t for t, e in r['prints'] if t.startswith('<report '))
+        if len(r['submitted']) != 3 or blocks != ['<report 0>', '<report 1>', '<report 2>']:
+            badb.append('a target listed twice (3 entries), %s: %d tasks submitted, blocks printed: %s -- every listed target gets its own block' % ('JSON' if js else 'text', len(r['submitted']), blocks))
     rep.check('blocks', 'one block per target: reports printed once each, separated (text) / bracketed and comma-separated (JSON), one task per listed target', not badb, mn,
               'multi-target output structure changed -- %s [%d runs deviate]' % (badb[0] if badb else '', len(badb)), stmt='multi-target block structure', sample={'rule': 'blocks', 'runs': 16})
     # prints only in the main thread: the task and everything it reaches must not print blocks itself
